@@ -77,14 +77,15 @@ theorem decode_consumes_all (p : Params) (bs : Bytes) (hwf : WFBytes bs) (u : Up
       subst h
       exact ⟨decodeRaw_split p bs hwf u' hr, decodeRaw_length p bs u' hr⟩
 
-/-- **RFC 6793 §4.2.3, on segments.** If AS_PATH counts fewer AS numbers than AS4_PATH, AS4_PATH is
+/-- **RFC 6793 §4.2.3 and §6, on segments.** If AS_PATH counts fewer AS numbers than AS4_PATH, AS4_PATH is
     ignored. Otherwise the result is the leading part of AS_PATH that counts for the difference
     (`takeUnits`: whole segments, the last AS_SEQUENCE possibly cut, its AS numbers a prefix of
-    AS_PATH's) followed by AS4_PATH, and it counts exactly as many AS numbers as AS_PATH did. -/
+    AS_PATH's) followed by the AS_SET and AS_SEQUENCE segments of AS4_PATH (its confederation segments are
+    discarded, §6), and it counts exactly as many AS numbers as AS_PATH did. -/
 theorem merge_rfc6793 (as2 as4 : List Seg) :
     (pathCount as2 < pathCount as4 → merge6793 as2 as4 = as2) ∧
     (pathCount as4 ≤ pathCount as2 →
-      merge6793 as2 as4 = takeUnits (pathCount as2 - pathCount as4) as2 ++ as4 ∧
+      merge6793 as2 as4 = takeUnits (pathCount as2 - pathCount as4) as2 ++ plainSegs as4 ∧
       pathCount (takeUnits (pathCount as2 - pathCount as4) as2) = pathCount as2 - pathCount as4 ∧
       flatAsns (takeUnits (pathCount as2 - pathCount as4) as2) <+: flatAsns as2 ∧
       pathCount (merge6793 as2 as4) = pathCount as2) := by
@@ -94,12 +95,21 @@ theorem merge_rfc6793 (as2 as4 : List Seg) :
     have hn : ¬ pathCount as2 < pathCount as4 := by omega
     have hk := pathCount_takeUnits as2 (pathCount as2 - pathCount as4) (by omega)
     refine ⟨by simp [merge6793, hn], hk, flatAsns_takeUnits_prefix _ _, ?_⟩
-    simp only [merge6793, hn, if_false, pathCount_append, hk]
+    simp only [merge6793, hn, if_false, pathCount_append, hk, pathCount_plainSegs]
     omega
+
+/-- No confederation segment of an AS4_PATH reaches the reported path (RFC 6793 §6): every segment of
+    the merged path that is not one of AS_PATH's is an AS_SET or an AS_SEQUENCE. -/
+theorem merge_discards_as4_confed (as2 as4 : List Seg) (h : pathCount as4 ≤ pathCount as2) :
+    ∃ front, merge6793 as2 as4 = front ++ plainSegs as4 ∧ ∀ s ∈ plainSegs as4, s.1 = 1 ∨ s.1 = 2 := by
+  refine ⟨takeUnits (pathCount as2 - pathCount as4) as2, ((merge_rfc6793 as2 as4).2 h).1, ?_⟩
+  intro s hs
+  have := (List.mem_filter.mp hs).2
+  simpa using this
 
 /-- An empty AS4_PATH changes nothing (the case of finding F16). -/
 theorem merge_empty_as4 (as2 : List Seg) : merge6793 as2 [] = as2 := by
-  simp [merge6793, pathCount, takeUnits_all as2 (pathCount as2) (Nat.le_refl _)]
+  simp [merge6793, plainSegs, pathCount, takeUnits_all as2 (pathCount as2) (Nat.le_refl _)]
 
 /-- **End-of-RIB (RFC 4724 §2) is recognised exactly** for: the UPDATE with no withdrawn routes,
     no attribute and no NLRI (IPv4 unicast), and the UPDATE whose only content is one
@@ -265,6 +275,8 @@ example : semErr pEx uEx = none := by decide
 example : ∀ a ∈ uEx.attrs, flagErr a.flags a.val.code = none := by decide
 /-- the canonical RFC 6793 case (finding F20): AS_PATH [65002, AS_TRANS, 3] + AS4_PATH [70000, 3] -/
 example : merge6793 [(2, [65002, 23456, 3])] [(2, [70000, 3])] = [(2, [65002]), (2, [70000, 3])] := by decide
+example : merge6793 [(3, [64512, 23456]), (2, [23456, 3])] [(3, [64512, 70001]), (2, [70000, 3])] =
+    [(3, [64512, 23456]), (2, [70000, 3])] := by decide
 example : (report pEx uEx).attrs.head? = some (.origin 0) := by decide
 example : ((report pEx uEx).attrs.filterMap (fun v => match v with | .asPath s => some s | _ => none)) =
     [[(2, [65002]), (2, [70000, 3])]] := by decide
